@@ -10,12 +10,31 @@ LONG = "protocol::varint::VarInt::LONG_BIT"
 MAXC = "protocol::varint::VarInt::MAX"
 
 
-def rows_of(facts, raw_path):
+def rows_of(facts, raw_path, inline=False):
     b = facts.by_path.get(raw_path)
     if b is None:
         raise F.MissingAnchor("no body " + raw_path)
-    g = ieg.IEG(facts, b, inline_filter=lambda x: False)
+    # private / small helpers of the varint module are looked through (e.g. an `encoded_len` helper)
+    filt = (lambda x: x.npath.startswith("protocol::varint::VarInt::") and x.npath not in (V + "::read", V + "::write")) if inline else (lambda x: False)
+    g = ieg.IEG(facts, b, inline_filter=filt)
     return b, paths.rows(g)
+
+
+def is_selfish(e):
+    e = ir.peel(e)
+    if e[0] == 'field' and str(e[2]) == '0':
+        e = ir.peel(e[1])
+    return e[0] == 'param'
+
+
+def long_bit_threshold(e):
+    """LONG_BIT (by name, possibly widened) or a literal with its value."""
+    e2 = ir.peel(e)
+    while e2[0] == 'call' and ir.is_transparent(e2[1]) and e2[2]:
+        e2 = ir.peel(e2[2][0])
+    if e2[0] == 'constdef' and e2[1] == LONG:
+        return True
+    return False
 
 
 def is_const(e, name):
@@ -170,23 +189,28 @@ def run(rep, facts):
         rep.violation("O5", "read/read_exact-only", "the reader is accessed through %s: a short read would be accepted silently" % sorted(io_calls), b.loc())
 
     # ---- O4 / O6: write ---------------------------------------------------------------------------------
-    b, rows = rows_of(facts, "protocol::varint::VarInt::write")
+    b, rows = rows_of(facts, "protocol::varint::VarInt::write", inline=True)
     forms = {}
     o6 = True
     n6 = 0
     for r in rows:
         if r.end != 'return' or r.ret is None:
             continue
-        cs = [(ir.peel(e), lab) for (e, lab) in nonconst_conds(r)]
+        cs = [(ir.peel(e, casts=False), lab) for (e, lab) in nonconst_conds(r) if mentions_const(e, LONG)]
         if len(cs) != 1:
-            forms['?'] = 'conditions'
+            forms['?'] = 'the short/long decision is not a single comparison with LONG_BIT (%d)' % len(cs)
             continue
         e, lab = cs[0]
+        truth = isinstance(lab, tuple) and (lab[0] == 'otherwise' or (lab[0] == 'case' and lab[1] != 0))
         below = None
-        if e[0] == 'call' and e[1].endswith("::lt") and ir.peel(e[2][0])[0] == 'param' and is_const(e[2][1], LONG):
-            below = isinstance(lab, tuple) and lab[0] == 'otherwise'
-        elif e[0] == 'bin' and e[1] == 'Lt' and is_const(e[3], LONG):
-            below = isinstance(lab, tuple) and lab[0] == 'otherwise'
+        if e[0] == 'call' and e[1].endswith("::lt") and is_selfish(e[2][0]) and long_bit_threshold(e[2][1]):
+            below = truth
+        elif e[0] == 'call' and e[1].endswith("::ge") and is_selfish(e[2][0]) and long_bit_threshold(e[2][1]):
+            below = not truth
+        elif e[0] == 'bin' and e[1] == 'Lt' and is_selfish(e[2]) and long_bit_threshold(e[3]):
+            below = truth
+        elif e[0] == 'bin' and e[1] == 'Ge' and is_selfish(e[2]) and long_bit_threshold(e[3]):
+            below = not truth
         wa = r.called("std::io::Write::write_all")
         others = [c for c in r.calls if c[0].startswith("std::io::Write::") and c[0] != "std::io::Write::write_all"]
         if below is None or len(wa) != 1 or others:
